@@ -296,6 +296,12 @@ class Quote(BlockToken):
         return '>' + ' ' * count + string[i:]
 
 
+class _SetextLines(list):
+    """
+    The lines of a setext heading (underline included) as returned by `Paragraph.read`.
+    """
+
+
 class Paragraph(BlockToken):
     """
     Paragraph token. (["some\\n", "continuous\\n", "lines\\n"])
@@ -305,9 +311,10 @@ class Paragraph(BlockToken):
     parse_setext = True  # can be disabled by Quote
 
     def __new__(cls, lines):
-        if not isinstance(lines, list):
-            # setext heading token, return directly
-            return lines
+        if isinstance(lines, _SetextLines):
+            # read() found a setext heading. It is built here, in the inline
+            # phase, so that link definitions that follow it are already known.
+            return SetextHeading(list(lines))
         return super().__new__(cls)
 
     def __init__(self, lines):
@@ -332,7 +339,7 @@ class Paragraph(BlockToken):
             # check if the paragraph being parsed is in fact a Setext heading
             if cls.parse_setext and cls.is_setext_heading(next_line):
                 line_buffer.append(next(lines))
-                return SetextHeading(line_buffer)
+                return _SetextLines(line_buffer)
 
             # finish the check for paragraph-breaking tokens with the special case: ThematicBreak
             if ThematicBreak.check_interrupts_paragraph(lines):
